@@ -60,9 +60,9 @@ def handle (line : String) : Except String String := do
     let sp ← jChars (← j.getObjVal? "sp")
     pure (showChars (sanitizeComment (fun x => sp.contains x) (← jChars (← j.getObjVal? "c"))))
   | "scanc" =>
-    match scanCL (← (← j.getObjVal? "nested").getBool?) (← jChars (← j.getObjVal? "s")) with
+    match readComment (← (← j.getObjVal? "nested").getBool?) (← jChars (← j.getObjVal? "s")) with
     | none => pure "none"
-    | some r => pure ("some " ++ toString r.length)
+    | some (t, r) => pure ("some " ++ toString r.length ++ "|" ++ showChars t)
   | "lex" =>
     let L ← getLex j
     let sp ← jChars (← j.getObjVal? "sp")
